@@ -526,11 +526,44 @@ class C11(Prop):
                 if fd["inv"] is not None:
                     val = "S(%s)" % val
                 ops.append("FENC %s %s #n=%d:%r:%r" % (fd["id"], val, n, xa, xb))
+        # the three hand-written bias quantisers (1059/1065: 0.01 m in 14 bits, 1230: 0.02 m in 16 bits), through the public API
+        for num, res, lo, hi in ((1059, 0.01, -8192, 8191), (1065, 0.01, -8192, 8191), (1230, 0.02, -32768, 32767)):
+            if num not in g.layouts:
+                continue
+            rf = bits_f32(f32_bits(res))
+            ns = {lo, hi - 1, -1, 0, 1, -2} | {rng.randint(lo, hi - 1) for _ in range(40 if ctx.tier == "quick" else 2000)}
+            for n in sorted(ns):
+                xa, xb = bits_f32(f32_bits(n * rf)), bits_f32(f32_bits((n + 1) * rf))
+                for fr in (0.25, 0.4, 0.49, 0.51, 0.6, 0.75, rng.random()):
+                    x = bits_f32(f32_bits(xa + (xb - xa) * fr))
+                    if not (xa <= x <= xb):
+                        continue
+                    if num == 1230:
+                        m = "VMsg1230(T{i1,i0,L[T{G1:67,f%08x}]})" % f32_bits(x)
+                    else:
+                        m = "VMsg%d(T{i1,i2,i0,i3,i4,i5,L[T{i3,G1:67,f%08x}]})" % (num, f32_bits(x))
+                    ops.append("ROUNDTRIP %s #b=%d:%r:%r:%r" % (m, n, xa, xb, res))
         return ops
 
     def probe(self, op, res, ctx):
         toks, tag = tagged(op)
         g = get_gen(ctx)
+        if toks[0] == "ROUNDTRIP":
+            n_s, xa_s, xb_s, res_s = tag[2:].split(":")
+            xa, xb, rs = float(xa_s), float(xb_s), float(res_s)
+            msg = vt.parse_msg(toks[1])
+            x = bits_f32(msg[2][1][-1][1][0][1][-1][1])
+            if not res.startswith("OK ") or " D1 VMsg" not in res:
+                return "an in-range bias %r was refused or lost: %s" % (x, res[:40])
+            d1 = vt.parse_msg(res.split(" D1 ")[1].split(" ")[0])
+            y = bits_f32(d1[2][1][-1][1][0][1][-1][1])
+            if y != xa and y != xb:
+                return "bias %r lies between grid points %r and %r but comes back as %r" % (x, xa, xb, y)
+            other = xb if y == xa else xa
+            slack = rs * 2.0 ** (16 + 3 - 24) + abs(x) * 2.0 ** (3 - 24)
+            if abs(x - y) > abs(x - other) + slack:
+                return "message %d: bias %r is quantised to the farther neighbour %r (nearer: %r)" % (msg[1], x, y, other)
+            return None
         fd = g.fields[toks[1]]
         w = fd["len"]
         if toks[0] == "FDEC" and tag.startswith("order"):
@@ -560,7 +593,7 @@ class C11(Prop):
         return None
 
     def nontrivial(self, op, res):
-        return op.startswith("FENC")
+        return op.startswith("FENC") or op.startswith("ROUNDTRIP")
 
 
 # =====================================================================================
@@ -706,6 +739,51 @@ def bias_expect(g, which, entries):
     return ok, grouped, max_sat
 
 
+def bias_hostile_frames(ctx):
+    """CRC-valid 1059/1065 frames announcing many satellites with 31 entries each (list capacity 390)"""
+    g = get_gen(ctx)
+    ops = []
+    for num, sat_bits in ((1059, 6), (1065, 5)):
+        if num not in g.layouts:
+            continue
+        hb = 12 + sum(g.fields[f["id"]]["len"] for _, f in g.layouts[num]["fields"] if f["k"] == "field")
+        table = g.ssr[str(num)]
+        for nsat in (13, 14, 20, 63, 12):
+            for total_len in (1023, 984, 960, 700):
+                b = bytes(set_bits(bytes(total_len), 0, 12, num))
+                off = hb
+                bits = [(6, nsat)]
+                for s in range(nsat):
+                    bits.append((sat_bits, s % 32))
+                    bits.append((5, 31))
+                    for i in range(31):
+                        bits.append((5, table[i % len(table)][2]))
+                        bits.append((14, (i * 37 + s) % 8000))
+                for wdt, v in bits:
+                    if off + wdt > 8 * total_len:
+                        break
+                    b = set_bits(b, off, wdt, v)
+                    off += wdt
+                ops.append("DECODE %s #hostile%d" % (hx(mkframe(b)), nsat))
+        # exactly at and just above the capacity: 12 satellites x 31 + k
+        for last in (18, 19, 20, 31):
+            b = bytes(set_bits(bytes(1000), 0, 12, num))
+            off = hb
+            bits = [(6, 13)]
+            for s in range(13):
+                cnt = 31 if s < 12 else last
+                bits.append((sat_bits, s))
+                bits.append((5, cnt))
+                for i in range(cnt):
+                    bits.append((5, table[i % len(table)][2]))
+                    bits.append((14, (i * 37 + s) % 8000))
+            for wdt, v in bits:
+                b = set_bits(b, off, wdt, v)
+                off += wdt
+            ops.append("DECODE %s #hostilecap%d" % (hx(mkframe(b[: (off + 7) // 8])), 372 + last))
+    return ops
+
+
 @register
 class C16(Prop):
     id = "C16"
@@ -736,32 +814,7 @@ class C16(Prop):
                     ops.append("ROUNDTRIP VMsg1230(T{i5,i1,L[%s]})" % ents)
             for _ in range(n // 3):
                 ops.append("ROUNDTRIP " + g.gen_msg(1230, rng.choice(["valid", "hostile"])))
-        # hostile frames: many satellites each announcing 31 entries
-        for num, sat_bits in ((1059, 6), (1065, 5)):
-            if num not in g.layouts:
-                continue
-            hb = 12 + sum(g.fields[f["id"]]["len"] for _, f in g.layouts[num]["fields"] if f["k"] == "field")
-            table = g.ssr[str(num)]
-            for nsat in (13, 14, 20, 63, 12):
-                for total_len in (1023, 984, 960, 700):
-                    body = bytearray(total_len)
-                    body = bytearray(set_bits(bytes(body), 0, 12, num))
-                    off = hb
-                    bits = []
-                    bits.append((6, nsat))
-                    for s in range(nsat):
-                        bits.append((sat_bits, s % 32))
-                        bits.append((5, 31))
-                        for i in range(31):
-                            bits.append((5, table[i % len(table)][2]))
-                            bits.append((14, (i * 37 + s) % 8000))
-                    b = bytes(body)
-                    for wdt, v in bits:
-                        if off + wdt > 8 * total_len:
-                            break
-                        b = set_bits(b, off, wdt, v)
-                        off += wdt
-                    ops.append("DECODE %s #hostile%d" % (hx(mkframe(b)), nsat))
+        ops += bias_hostile_frames(ctx)
         return ops
 
     def probe(self, op, res, ctx):
@@ -1156,7 +1209,7 @@ class C02(Prop):
         g = get_gen(ctx)
         ops = decode_ops_hostile(ctx, 14 if ctx.tier == "quick" else 1500)
         ops += msm_hostile_frames(ctx)
-        ops += [o for o in C16().gen_hostile(ctx)] if hasattr(C16, "gen_hostile") else []
+        ops += bias_hostile_frames(ctx)
         # valid bodies, truncated and bit-flipped, re-framed
         enc = ["ENCODE " + g.gen_msg(n, "valid") for n in g.numbers for _ in range(2 if ctx.tier == "quick" else 30)]
         r = ctx.run_impl(enc, "rel", "c02a")
@@ -1266,6 +1319,14 @@ class C09(Prop):
                 m[2][1][-1] = ("T", [("L", [srow(s) for s in sats]), ("L", [crow(s, sg) for s, sg in cells])])
                 ops.append("ENCODE " + vt.show_msg(m))
         ops += ["ENCODE " + m for m in long_messages(ctx)]
+        if 1029 in g.layouts:
+            for _ in range(40 if q else 2000):
+                k = rng.choice(["two", "bmp", "astral", "mixed"])
+                nfill = rng.randint(240, 258)
+                cps = [rng.randint(97, 122)] * (nfill - rng.randint(0, 6)) + g.gen_cps(rng.randint(1, 4), k)
+                ops.append("ENCODE VMsg1029(T{i1,i2,i3,C%s})" % ".".join(map(str, cps)))
+                cps = g.gen_cps(rng.randint(60, 130), k)
+                ops.append("ENCODE VMsg1029(T{i1,i2,i3,C%s})" % ".".join(map(str, cps)))
         return ops
 
     def proj(self, op, res):
@@ -1304,6 +1365,11 @@ class C01(Prop):
             for _ in range(5 if q else 300):
                 L = rng.choice([8, 16, 40, 100, 300, rng.randint(2, 600)])
                 ops.append("REDECODE %s" % hx(frame_of_payload(n, rng, L, rng.choice(["rand", "rand", "zero", "ones"]))))
+        # the first build made by a builder that already built (or failed to build) something else
+        fails = failing_messages(ctx)
+        for n in g.numbers:
+            for _ in range(2 if q else 30):
+                ops.append("ROUNDTRIPH %s %s" % (g.gen_msg(n, "valid", n=rng.choice([0, 1, 2])), rng.choice(fails)))
         # sign-magnitude fields just beyond their range (a saturated / first out-of-range magnitude)
         for n in g.numbers:
             lay = g.layouts[n]
@@ -1331,6 +1397,8 @@ class C01(Prop):
         g = get_gen(ctx)
         if op.startswith("ROUNDTRIP"):
             if not res.startswith("OK "):
+                return None
+            if res.startswith("BADVAL"):
                 return None
             m = op.split(" ")[1]
             n = int(m[4:m.index("(")]) if m.startswith("VMsg") and not m.startswith("VMsgNot") else None
@@ -1577,3 +1645,117 @@ class C20(Prop):
 
     def nontrivial(self, op, res):
         return res.startswith("EQ ")
+
+
+# =====================================================================================
+@register
+class C19(Prop):
+    id = "C19"
+    module = "C19"
+    theorems = ["C19_features_closed", "C19_closed", "C19_hand_fields_gated", "C19_dispatch_empty", "C19_single_arms", "C19_dispatch_single"]
+    table_obligations = ["features_closed"]
+    partial_note = ("partial: the cfg gating tables are modelled and proved closed for every feature subset; that rustc accepts each selection and that a single-feature build "
+                    "decodes like the full build is enumerated by running the compiler (quick: empty, all_msgs without std, 6 seeded single features incl. one with serde, "
+                    "2 single-feature decode comparisons; thorough: every single feature)")
+    rule = ("configurations: cargo check --no-default-features for {empty, all_msgs, seeded single features (always one per shared fragment module and per hand-written field codec)}, "
+            "one with serde; decode comparison of single-feature builds against the full build on test-vector and random frames of every number; "
+            "non-trivial = distinct configurations / distinct compared frames")
+
+    def corpus(self, ctx):
+        return []
+
+    def gen(self, ctx):
+        # the frames that the single-feature builds are compared on (also run through the full build + model)
+        rng = ctx.rng
+        ops = []
+        for f in gf.testdata_frames()[:: (2 if ctx.tier == "quick" else 1)]:
+            ops.append("DECODE %s" % hx(f))
+        g = get_gen(ctx)
+        for n in g.numbers:
+            ops.append("DECODE %s" % hx(frame_of_payload(n, rng, rng.choice([30, 80, 200]), "rand")))
+        for n in (0, 1000, 1018, 1028, 4095):
+            ops.append("DECODE %s" % hx(frame_of_payload(n, rng, 20, "rand")))
+        ops.append("DECODE %s" % hx(mkframe(b"")))
+        return ops
+
+    def probes(self, ops, rel, chk, ctx):
+        out = []
+        t = ctx.tables
+        rng = ctx.rng
+        feats = sorted(k for k in t["cargo_features"] if k.startswith("msg") and k[3:].isdigit())
+        shared = {sm["module"]: sm["features"] for sm in t["shared_modules"]}
+        must = []
+        for sm, fl in shared.items():
+            users = [f for f, deps in t["uses"].items() if sm in deps]
+            if users:
+                must.append(rng.choice(sorted(users)))
+        must += [h["feature"] for h in t["hand_mods"]][:2] if ctx.tier == "quick" else [h["feature"] for h in t["hand_mods"]]
+        singles = feats if ctx.tier == "thorough" else sorted(set(must + rng.sample(feats, 2)))
+        tdir = os.path.join(CACHE, "target-feat")
+        configs = [("empty", []), ("all_msgs", ["all_msgs"])] + [(f, [f]) for f in singles]
+        serde_cfg = rng.choice(singles)
+        configs.append((serde_cfg + "+serde", [serde_cfg, "serde"]))
+        self.config_results = {}
+        for name, fl in configs:
+            cmd = "cargo check --offline --lib --no-default-features" + (" --features " + ",".join(fl) if fl else "")
+            rc, o, e = sh(cmd, cwd=REPO, timeout=900, env={"CARGO_TARGET_DIR": tdir})
+            self.config_results[name] = rc
+            if rc != 0:
+                errs = [l for l in e.splitlines() if l.startswith("error")][:3]
+                out.append((0, "the crate does not build without std with feature selection {%s}: %s" % (",".join(fl), " | ".join(errs)[:300])))
+        # decode comparison
+        hd = os.path.join(ROOT, "harness-feat")
+        toml = ['[package]', 'name = "rtcm-verif-feat"', 'version = "0.1.0"', 'edition = "2021"', '', '[workspace]', '',
+                '[dependencies]', 'rtcm-rs = { path = "%s", default-features = false, features = ["serde", "std"] }' % REPO,
+                'serde = { version = "1.0", default-features = false, features = ["std"] }', '', '[features]']
+        for f in feats:
+            toml.append('%s = ["rtcm-rs/%s"]' % (f, f))
+        content = "\n".join(toml) + "\n"
+        tp = os.path.join(hd, "Cargo.toml")
+        if not os.path.exists(tp) or open(tp).read() != content:
+            open(tp, "w").write(content)
+        lock_src = os.path.join(ROOT, "harness", "Cargo.lock")
+        if os.path.exists(lock_src) and not os.path.exists(os.path.join(hd, "Cargo.lock")):
+            open(os.path.join(hd, "Cargo.lock"), "w").write(open(lock_src).read().replace("rtcm-verif-harness", "rtcm-verif-feat"))
+        opsfile = os.path.join(ctx.workdir, "feat-ops.txt")
+        open(opsfile, "w").write("\n".join(ops) + "\n")
+        cmp_feats = singles if ctx.tier == "thorough" else rng.sample(singles, 2)
+        self.compared = 0
+        for f in cmp_feats + ["__none__"]:
+            fl = [] if f == "__none__" else [f]
+            cmd = "cargo build --offline" + (" --features " + ",".join(fl) if fl else "")
+            rc, o, e = sh(cmd, cwd=hd, timeout=900, env={"CARGO_TARGET_DIR": os.path.join(CACHE, "target-featbin")})
+            if rc != 0:
+                out.append((0, "the decode driver does not build with feature selection {%s}: %s" % (f, e[-300:])))
+                continue
+            rc, o, e = sh([os.path.join(CACHE, "target-featbin", "debug", "rtcm-verif-feat"), opsfile], timeout=300)
+            lines = o.split("\n")
+            n_f = int(f[3:]) if f != "__none__" else None
+            for i, (op, full) in enumerate(zip(ops, rel)):
+                if i >= len(lines):
+                    out.append((i, "single-feature driver produced no result"))
+                    break
+                got = lines[i]
+                d = unhex(op.split(" ")[1])
+                L = ((d[1] & 3) << 8) | d[2]
+                num = ((d[3] << 4) | (d[4] >> 4)) if L >= 2 else None
+                self.compared += 1
+                if num is not None and num == n_f:
+                    if got != full:
+                        out.append((i, "a build with only feature %s decodes a frame of its own type differently from the full build: '%s' vs '%s'" % (f, got[:60], full[:60])))
+                elif num is None:
+                    if not got.startswith("VEmpty"):
+                        out.append((i, "build {%s}: a frame without a number decodes to %s" % (f, got[:40])))
+                else:
+                    want = "VMsgNotSupported(T{i%d})" % num
+                    if got.split(" ")[0] != want:
+                        out.append((i, "a build with only feature %s reports number %d as '%s' instead of unsupported" % (f, num, got[:50])))
+        return out[:20]
+
+    def distribution(self, ops, res):
+        d = {"configurations_checked": len(getattr(self, "config_results", {})), "frames_compared": getattr(self, "compared", 0)}
+        d.update({"cfg:" + k: v for k, v in getattr(self, "config_results", {}).items()})
+        return d
+
+    def nontrivial(self, op, res):
+        return True
